@@ -52,6 +52,8 @@ pub mod _benchable {
 pub mod _verif {
     pub use super::iter::Bytes;
     pub use super::simd::verif as simd;
+    #[cfg(feature = "std")]
+    pub use super::iter::verif_counters as counters;
 
     pub fn is_uri_token(b: u8) -> bool {
         super::is_uri_token(b)
